@@ -222,6 +222,7 @@ class _Accept(paramiko.MissingHostKeyPolicy):
 POLICIES = dict(reject=(paramiko.RejectPolicy, False), autoadd=(paramiko.AutoAddPolicy, True),
                 warning=(paramiko.WarningPolicy, True), custom_raise=(_Raise, False), custom_accept=(_Accept, True))
 KEYTYPES = ["rsa", "ecdsa", "ed25519"]
+METHODS = ["password", "pkey", "strategy-password", "strategy-pkey"]
 
 
 def _key(kind, idx):
@@ -234,7 +235,7 @@ def client_case(ctx, idx, combo=None):
     states = ["same", "diff-same-type", "other-type-only", "hashed-same", "hashed-diff", "port-entry-same",
               "port-entry-diff", "plain-entry-other-port", "none", "multi-host-line-same", "same-plus-other-type"]
     state, pol, ktype, method = combo or (rng.choice(states), rng.choice(sorted(POLICIES)), rng.choice(KEYTYPES),
-                                          rng.choice(["password", "pkey"]))
+                                          rng.choice(METHODS))
     port = 2222 if state.startswith("port-entry") or state == "plain-entry-other-port" else 22
     host = "vfhost.example"
     desc = dict(kind="sshclient", known=state, policy=pol, keytype=ktype, method=method, port=port)
@@ -296,12 +297,25 @@ def client_case(ctx, idx, combo=None):
     allowed = known_applies if known_applies is not None else accepts
     tapcls = tap.make_tap(rec, "c")
     err = None
+    strategy = None
+    if method.startswith("strategy"):
+        from paramiko.auth_strategy import AuthStrategy, InMemoryPrivateKey, Password
+
+        class _Strategy(AuthStrategy):
+            def get_sources(self):
+                if method == "strategy-password":
+                    yield Password("u", lambda: PW)
+                else:
+                    yield InMemoryPrivateKey("u", ukey)
+
+        strategy = _Strategy(ssh_config=paramiko.SSHConfig())
     try:
         with warnings.catch_warnings():
             warnings.simplefilter("ignore")
             cl.connect(host, port=port, sock=link.a, username="u",
                        password=PW if method == "password" else None,
                        pkey=ukey if method == "pkey" else None,
+                       auth_strategy=strategy,
                        look_for_keys=False, allow_agent=False, timeout=20,
                        transport_factory=lambda sock, **kw: paramiko.Transport(sock, packetizer_class=tapcls, **kw))
     except Exception as e:
@@ -382,7 +396,7 @@ def run(ctx):
             k += 1
             if not ctx.mine(k) or time.time() > dl:
                 continue
-            ctx.guard(client_case, ctx, k, (s, p, ctx.rng.choice(KEYTYPES), ctx.rng.choice(["password", "pkey"])))
+            ctx.guard(client_case, ctx, k, (s, p, ctx.rng.choice(KEYTYPES), METHODS[k % len(METHODS)]))
     for i in range(ctx.pick(3, 9)):
         if time.time() < dl:
             ctx.guard(transport_connect_case, ctx, i + ctx.shard)
